@@ -1,6 +1,7 @@
 package main
 
 import (
+	"github.com/biogo/biogo/seq/linear"
 	"github.com/biogo/biogo/alphabet"
 	"github.com/biogo/biogo/seq"
 	"github.com/biogo/biogo/seq/alignment"
@@ -90,10 +91,79 @@ func c05ZeroColumns(r *obs.Run) {
 	r.Note(fmt.Sprintf("zerocol/%v/%d/%s", quality, st, al.Letters()), true)
 }
 
+// c05EmptyClones: clones of a zero-length linear sequence whose slice has room to spare (a template that was emptied, or
+// preallocated) must not share that room: letters appended to one copy never show up in, or get overwritten through,
+// another.
+func c05EmptyClones(r *obs.Run) {
+	rng := r.Rng
+	quality := rng.Intn(2) == 0
+	spare := 1 + rng.Intn(24)
+	w := map[string]interface{}{"kind": map[bool]string{true: "linear.QSeq", false: "linear.Seq"}[quality], "length": 0, "spare_capacity": spare}
+	defer func() {
+		if e := recover(); e != nil {
+			r.Violate("panic", fmt.Sprintf("empty %v with spare capacity: panic: %v", w["kind"], e), w)
+		}
+	}()
+	var orig seq.Sequence
+	if quality { // the constructors copy their argument: the roomy slice is assigned to the exported field
+		q := linear.NewQSeq("x", nil, alphabet.DNA, alphabet.Sanger)
+		q.Seq = make(alphabet.QLetters, 0, spare)
+		orig = q
+	} else {
+		l := linear.NewSeq("x", nil, alphabet.DNA)
+		l.Seq = make(alphabet.Letters, 0, spare)
+		orig = l
+	}
+	copies := []seq.Sequence{orig, orig.Clone().(seq.Sequence), orig.Clone().(seq.Sequence)}
+	want := make([]string, len(copies))
+	order := rng.Perm(len(copies))
+	for round := 0; round < 2; round++ {
+		for _, k := range order {
+			n := 1 + rng.Intn(minInt(spare, 5))
+			l := make([]byte, n)
+			for j := range l {
+				l[j] = "acgt"[(k+j+round)%4]
+			}
+			var err error
+			if quality {
+				ql := make([]alphabet.QLetter, n)
+				for j := range ql {
+					ql[j] = alphabet.QLetter{L: alphabet.Letter(l[j]), Q: alphabet.Qphred(10 + k)}
+				}
+				err = copies[k].(*linear.QSeq).AppendQLetters(ql...)
+			} else {
+				err = copies[k].(*linear.Seq).AppendLetters(alphabet.BytesToLetters(l)...)
+			}
+			if err != nil {
+				r.Violate("append-error", "append to a copy of an empty sequence returned "+err.Error(), w)
+				return
+			}
+			want[k] += string(l)
+			for c := range copies {
+				got := make([]byte, copies[c].Len())
+				for p := range got {
+					got[p] = byte(copies[c].At(p).L)
+				}
+				if string(got) != want[c] {
+					w["copies_expected"] = want
+					r.Violate("clone-not-independent", fmt.Sprintf("%v of length 0 (spare capacity %d) and two clones: after appending %q to copy %d, copy %d reads %q, want %q", w["kind"], spare, l, k, c, got, want[c]), w)
+					return
+				}
+			}
+		}
+	}
+	r.Count("empty_sequence_clone_sets", 1)
+	r.Note(fmt.Sprintf("emptyclones/%v/%d/%v", quality, spare, order), true)
+}
+
 func c05Case(r *obs.Run, i int) {
 	rng := r.Rng
 	if i%40 == 7 {
 		c05ZeroColumns(r)
+		return
+	}
+	if i%40 == 13 {
+		c05EmptyClones(r)
 		return
 	}
 	kind := c05Kinds[rng.Intn(len(c05Kinds))]
@@ -150,7 +220,11 @@ func c05Case(r *obs.Run, i int) {
 	nops := 1 + rng.Intn(6)
 	for k := 0; k < nops && !h.failed; k++ {
 		before := len(h.Ops)
-		switch rng.Intn(9) {
+		switch rng.Intn(12) {
+		case 9:
+			h.opSwap()
+		case 10, 11:
+			h.opAppend()
 		case 0, 1, 2:
 			if ragged {
 				r.Count("multi_ragged_revcomp", 1)
